@@ -12,7 +12,10 @@ SEEDS = ["", "/", "//", "/profile/", "/\\evil.example", "/\t/evil.example", "/\n
          "/idp/oauth2/authorize?client_id=a&redirect_uri=https%3A%2F%2Fx", "/x?y=//evil", "/x#//evil",
          "/%2f/evil.example", "/%5cevil.example", "/ /evil.example", "/;/evil.example", "/?/\\evil",
          "/.\\evil.example", "/..\\evil.example", "/a/./\\\\evil", "/\x7f/x", "/\x85/x", "/é/../\\x",
-         "/%zz/../\\evil", "/a%", "/./", "/..", "/.", "/a/b/../../..//x", "/a?b/../\\c", "/a#/../\\c"]
+         "/%zz/../\\evil", "/a%", "/./", "/..", "/.", "/a/b/../../..//x", "/a?b/../\\c", "/a#/../\\c",
+         "/&#92;evil.example/", "/&bsol;evil.example", "/&#47;evil.example/", "/&sol;/evil.example", "/&Tab;/evil.example",
+         "/&#13;/evil.example", "/%5cevil.example", "/%2fevil.example", "/%255cevil.example", "/\\u005cevil.example",
+         "/x?a=1&amp;b=2", "/&amp;#92;evil.example"]
 
 
 def gen(rng, n):
